@@ -269,6 +269,17 @@ struct HistViol
       std::vector<std::string> r { to_s(op_), to_s(a_), e.rcase }; r.insert(r.end(), e.rin.begin(), e.rin.end()); e.rin = r; e.rcase = "althist"; return e; });
     }
   };
+// wraps a LocalViol: the example records that errno was preset before the call ("env<inner case>": errno value, then the inner case)
+struct EnvViol
+  {
+  LocalViol& lv; int ev;
+  template<typename F> void hit(int cl, u64 ord, F && f)
+    {
+    auto g = std::forward<F>(f); int ev_ = ev;
+    lv.hit(cl, ord, [=]{ Example e = g(); e.shape += (e.shape.empty() ? "" : ", ") + std::string("errno preset to ") + (ev_ == 33 ? "EDOM" : ev_ == 34 ? "ERANGE" : std::to_string(ev_)) + " before the call";
+      std::vector<std::string> r { std::to_string(ev_), e.rcase }; r.insert(r.end(), e.rin.begin(), e.rin.end()); e.rin = r; e.rcase = "env" + e.rcase; return e; });
+    }
+  };
 // chk(b, got, order, HistViol&) for every seed a in [lo,hi] and every b in alias_args(a); single-threaded by design
 template<typename Chk> u64 sweep_alias_histories(Shim* s, int op, i64 lo, i64 hi, Recorder& rec, u64 order_base, Chk chk)
   {
